@@ -191,6 +191,11 @@ class C02(Check):
             if longn and name[0] in 'abx' and name[1:].isdigit() and int(name[1:]) not in (1, n - 2):
                 i = int(name[1:])       # long-track probe: concrete values except two symbolic entries per vector
                 return float(((i * 7 + {'a': 3, 'b': 5, 'x': 1}[name[0]]) % 11) - 4)
+            if sym and longn and name[0] in 'abx' and name[1:].isdigit():
+                # the two symbolic entries of a long vector stay strictly between two of the fixed values (these are integers): order-dependent
+                # aggregates then follow a handful of paths instead of one per rank
+                lo = 0.25 if int(name[1:]) == 1 else 2.25
+                return eng.real(name, lo, lo + 0.5)
             if sym:
                 v = eng.real_or_nan(name, -8, 8) if nan else eng.real(name, -8, 8)
                 if core.is_sym(v):     # exact zero or at least 1/1024 in magnitude: keeps every intermediate value far below the 1e300 sentinels of MIN / MAX
